@@ -100,6 +100,15 @@ def hull_vertices_only(V):
     every vertex in some triangle; interior or duplicate points are dropped)."""
     from scipy.spatial import ConvexHull
     V = np.asarray(V, dtype=float)
+    # the domain requires triangles of non-zero area: vertices closer than
+    # 1e-6 of the spread to an earlier vertex are dropped
+    spread = max(float(np.max(np.linalg.norm(V - V.mean(axis=0), axis=1))), 1e-300)
+    keep = []
+    for v in V:
+        if all(np.linalg.norm(v - w) > 1e-6 * spread for w in keep):
+            keep.append(v)
+    if len(keep) >= 4:
+        V = np.array(keep)
     for _ in range(5):
         ch = ConvexHull(V - V.mean(axis=0))
         keep = np.unique(ch.simplices)
